@@ -615,6 +615,24 @@ pub fn sugg_corpus() -> Vec<Program> {
             family: "sugg flatten3".into(),
         });
     }
+    // P3c..P3g: flatten depth 3 where one level (or every level) also has a required member,
+    // so that level adds an error of its own and unknown names travel upwards inside nested
+    // groups of errors
+    for req in 0..5usize {
+        let mut f3 = Field::new("c", Ty::Struct(3));
+        f3.flatten = true;
+        let mut f2 = Field::new("b", Ty::Struct(2));
+        f2.flatten = true;
+        let mut f1 = Field::new("a", Ty::Struct(1));
+        f1.flatten = true;
+        let mut levels = vec![vec![opt("relax"), f1], vec![opt("relay"), f2], vec![opt("realx"), f3], vec![opt("lax_real"), opt("exa")]];
+        for (i, l) in levels.iter_mut().enumerate() {
+            if req == i || req == 4 {
+                l.insert(1, Field::new(&format!("need_{i}"), Ty::U32));
+            }
+        }
+        out.push(Program { decls: levels.into_iter().map(st).collect(), root: 0, family: format!("sugg flatten3 required@{}", if req == 4 { "all".to_string() } else { req.to_string() }) });
+    }
     // P4: nested (non-flatten) child inside the flatten child
     {
         let mut fl = Field::new("inner", Ty::Struct(1));
@@ -642,6 +660,27 @@ pub fn sugg_corpus() -> Vec<Program> {
             Variant { rust: "GammaRay".into(), rename: None, skip: false, word: None, body: VBody::Newtype(Ty::U32) },
         ];
         out.push(Program { decls: vec![Decl::Enum(EnumDecl { rule: None, from_word: false, from_none: false, allow_unknown: None, variants })], root: 0, family: "sugg enum".into() });
+    }
+    // P7: enum whose struct variants have a flatten member in first / middle / last position
+    {
+        let mk = |pos: usize| {
+            let mut fl = Field::new("inner", Ty::Struct(1));
+            fl.flatten = true;
+            let mut fs = vec![opt("label"), opt("depth_min")];
+            fs.insert(pos, fl);
+            fs
+        };
+        let variants = vec![
+            Variant { rust: "Head".into(), rename: None, skip: false, word: None, body: VBody::Struct(mk(0)) },
+            Variant { rust: "Mid".into(), rename: None, skip: false, word: None, body: VBody::Struct(mk(1)) },
+            Variant { rust: "Tail".into(), rename: None, skip: false, word: None, body: VBody::Struct(mk(2)) },
+            Variant { rust: "Plain".into(), rename: None, skip: false, word: None, body: VBody::Struct(vec![opt("label"), opt("width")]) },
+        ];
+        out.push(Program {
+            decls: vec![Decl::Enum(EnumDecl { rule: None, from_word: false, from_none: false, allow_unknown: None, variants }), st(vec![opt("depth_max"), opt("labels")])],
+            root: 0,
+            family: "sugg enum struct-variants with flatten".into(),
+        });
     }
     out
 }
